@@ -4,6 +4,7 @@ import (
 	"fmt"
 	"strings"
 	"sync"
+	"verif/tool/corpus"
 
 	"verif/tool/gosym"
 )
@@ -71,6 +72,14 @@ func C05(c *Ctx) {
 		return
 	}
 	specs := gCorpus(c, 0)
+	// large tables (the packed vector grows past its first allocation): cells only, one path per cell
+	bigCells := map[string]bool{}
+	for _, s := range corpus.Fixed() {
+		if s.HasTag("big") {
+			specs = append(specs, s)
+			bigCells[s.Name] = true
+		}
+	}
 	g, err := c.Generate(y, specs, []string{"go", "go-u", "pair-p", "pair-u"}, nil)
 	if err != nil {
 		c.Inconclusive("%v", err)
@@ -103,10 +112,18 @@ func C05(c *Ctx) {
 		go func() {
 			defer wg.Done()
 			defer func() { <-sem }()
-			job := c.cmpJob(g, s, "VerifCells", nil, "C05cell")
+			pin := 0
+			if bigCells[s.Name] {
+				pin = 1
+			}
+			job := c.cmpJob(g, s, "VerifCells", []int{pin}, "C05cell")
 			job.Need = []string{"cell"}
 			job.Tweak = func(cfg *gosym.Config) { cfg.MaxSymIndex = 100000 }
 			c.RunSym(job)
+			if bigCells[s.Name] {
+				c.MarkDistinct("grammar " + s.Name)
+				return
+			}
 			job2 := c.cmpJob(g, s, "VerifAgree", []int{N}, "C05run")
 			job2.Need = []string{"reject"}
 			c.RunSym(job2)
